@@ -119,9 +119,36 @@ pub fn doc_to_json(d: &MDoc) -> Value {
 
 /// Order-preserving dense ranks of the values of every field (terms keys are sent to the Lean
 /// model as ranks under field id `f + NF`, so that its key enumeration stays small).
-pub struct Ranks(pub Vec<Vec<i64>>);
+pub struct Ranks(pub Vec<Vec<i64>>, pub Vec<(String, usize, CSrc, Vec<i64>)>);
 impl Ranks {
+    /// synthetic model field holding the ranks of source `j` of the composite node `name`
+    pub fn comp_idx(&self, name: &str, j: usize) -> usize { self.1.iter().position(|c| c.0 == name && c.1 == j).expect("composite source") }
+    pub fn comp_field(&self, name: &str, j: usize) -> usize { 2 * NF + self.comp_idx(name, j) }
+    pub fn comp_base(&self, name: &str, j: usize) -> i64 { (self.1[self.comp_idx(name, j)].3.len() as i64).max(1) }
+    /// mixed-radix code of a composite key (the Lean model's `compKeys`)
+    pub fn comp_code(&self, name: &str, sources: &[CSrc], key: &[i64]) -> i64 {
+        let mut code = 0i64;
+        for (j, s) in sources.iter().enumerate() {
+            let base = self.comp_base(name, j);
+            let rank = self.1[self.comp_idx(name, j)].3.binary_search(&key[j]).map(|p| p as i64).unwrap_or(0);
+            code = code * base + if s.desc { base - 1 - rank } else { rank };
+        }
+        code
+    }
     pub fn new(docs: &[MDoc], nodes: &[Node]) -> Ranks {
+        let mut comp = vec![];
+        fn walk_comp(nodes: &[Node], docs: &[MDoc], out: &mut Vec<(String, usize, CSrc, Vec<i64>)>) {
+            for n in nodes {
+                if let Agg::Composite { sources, .. } = &n.agg {
+                    for (j, s) in sources.iter().enumerate() {
+                        let set: std::collections::BTreeSet<i64> = docs.iter().flat_map(|d| csrc_vals(s, d, false)).collect();
+                        out.push((n.name.clone(), j, s.clone(), set.into_iter().collect()));
+                    }
+                }
+                walk_comp(&n.subs, docs, out);
+            }
+        }
+        walk_comp(nodes, docs, &mut comp);
         let mut sets: Vec<std::collections::BTreeSet<i64>> = vec![Default::default(); NF];
         for d in docs { for f in 0..NF { sets[f].extend(d[f].iter().cloned()); } }
         fn walk(nodes: &[Node], sets: &mut Vec<std::collections::BTreeSet<i64>>) {
@@ -131,7 +158,7 @@ impl Ranks {
             }
         }
         walk(nodes, &mut sets);
-        Ranks(sets.into_iter().map(|s| s.into_iter().collect()).collect())
+        Ranks(sets.into_iter().map(|s| s.into_iter().collect()).collect(), comp)
     }
     pub fn rank(&self, f: Fd, c: i64) -> i64 { self.0[f.id()].binary_search(&c).map(|p| p as i64).unwrap_or(-1) }
 }
@@ -144,6 +171,12 @@ pub fn parts_to_lean(docs: &[MDoc], parts: &[Vec<usize>], ranks: &Ranks) -> Stri
         for f in ALL_FD {
             if !d[f.id()].is_empty() {
                 items.push(format!("{}={}", f.id() + NF, d[f.id()].iter().map(|v| ranks.rank(f, *v).to_string()).collect::<Vec<_>>().join(",")));
+            }
+        }
+        for (i, c) in ranks.1.iter().enumerate() {
+            let vs = csrc_vals(&c.2, d, true);
+            if !vs.is_empty() {
+                items.push(format!("{}={}", 2 * NF + i, vs.iter().map(|v| c.3.binary_search(v).map(|p| p as i64).unwrap_or(0).to_string()).collect::<Vec<_>>().join(",")));
             }
         }
         if items.is_empty() { "e".into() } else { items.join("/") }
@@ -384,7 +417,11 @@ pub fn nodes_to_lean(nodes: &[Node], counts_only: bool, ranks: &Ranks) -> String
                 format!("{s},{sub}")
             }
             Agg::Filter { field, code } => format!("F,{},{},{}", field.id(), code, sub),
-            Agg::Composite { .. } => "N".into(),
+            Agg::Composite { sources, size } => {
+                let mut t = format!("C,{}", sources.len());
+                for (j, c) in sources.iter().enumerate() { t.push_str(&format!(",{},{},{}", ranks.comp_field(&n.name, j), ranks.comp_base(&n.name, j), if c.desc { "d" } else { "a" })); }
+                format!("{t},{size},_,{sub}")
+            }
         }
     }
     match nodes.len() {
@@ -577,7 +614,7 @@ pub fn gen_nodes(rng: &mut Rng, depth: usize, max_depth: usize, counter: &mut us
 /// false when the request uses something the Lean model does not cover
 pub fn lean_modelled(nodes: &[Node]) -> bool {
     nodes.iter().all(|n| !matches!(&n.agg, Agg::Terms { field, mdc: Some(0), .. } if field.is_str())
-        && !matches!(n.agg, Agg::Composite { .. }) && n.opt.include.is_none() && n.opt.exclude.is_none() && n.opt.sub_order.is_none() && lean_modelled(&n.subs))
+        && n.opt.include.is_none() && n.opt.exclude.is_none() && n.opt.sub_order.is_none() && lean_modelled(&n.subs))
 }
 
 /// keyed output, include / exclude, order by a metric sub-aggregation
